@@ -31,11 +31,28 @@ class FileRec:
         return [v >= 0 for v in self.ints.values()]
 
     def pred(self, name, *args):
-        """uninterpreted predicate of the file (fnmatch on an opaque string, xattr presence...)"""
-        key = (name,) + tuple(args)
+        """uninterpreted predicate of the file (fnmatch on an opaque string, xattr presence...).
+        args are reprs of structures or structures; symbolic characters inside them become arguments of
+        an uninterpreted function, so that equal strings give equal truth values (congruence)"""
+        terms = []
+
+        def skel(x):
+            if is_sym(x):
+                terms.append(x)
+                return "$%d" % x.size() if z3.is_bv(x) else "$"
+            if isinstance(x, (tuple, list)):
+                return "(" + ",".join(skel(y) for y in x) + ")"
+            return repr(x)
+        sk = tuple(skel(a) for a in args)
+        key = (name,) + sk
+        if not terms:
+            if key not in self.uf:
+                self.uf[key] = z3.Bool("%s_%s_%d" % (self.tag, name.replace("-", "_").replace("?", ""), len(self.uf)))
+            return self.uf[key]
         if key not in self.uf:
-            self.uf[key] = z3.Bool("%s_%s_%d" % (self.tag, name.replace("-", "_").replace("?", ""), len(self.uf)))
-        return self.uf[key]
+            sorts = [t.sort() for t in terms] + [z3.BoolSort()]
+            self.uf[key] = z3.Function("%s_%s_%d" % (self.tag, name.replace("-", "_").replace("?", ""), len(self.uf)), *sorts)
+        return self.uf[key](*terms)
 
 
 def V_int(t):
@@ -280,27 +297,27 @@ class Machine:
             # contract: string equality coincides with fnmatch on patterns without the characters * ? [ \
             if name.startswith("streq") and pat[0] == "str" and not any(c in WILDCARDS for c in pat[1]):
                 name = name.replace("streq", "fnmatch")
-            return ("bool", f.pred(name, repr(key), repr(s)))
+            return ("bool", f.pred(name, key, s))
         if name == "member":
             a0 = ("str", tuple(args[0][1])) if args[0][0] == "str" else args[0]
-            return ("bool", f.pred("member", repr(a0), repr(args[1])))
+            return ("bool", f.pred("member", a0, args[1]))
         if name == "lov-pools" and not args:
             return ("attr", "lov-pools")
         if name == "xattr?":
             a0 = ("str", tuple(args[0][1])) if args[0][0] == "str" else args[0]
-            return ("bool", f.pred("xattr?", repr(a0)))
+            return ("bool", f.pred("xattr?", a0))
         if name == "xattr-match?":
             a0 = ("str", tuple(args[0][1])) if args[0][0] == "str" else args[0]
             a1 = ("str", tuple(args[1][1])) if args[1][0] == "str" else args[1]
-            return ("bool", f.pred("xattr-value-matches", repr(a0), repr(a1)))
+            return ("bool", f.pred("xattr-value-matches", a0, a1))
         if name == "xattr-ref-string":
             return ("xattr-ref", ("str", tuple(args[0][1])) if args[0][0] == "str" else args[0])
         if name == "equal?":
             a, b = args
             if a[0] == "xattr-ref" and b[0] == "str" and not any(c in WILDCARDS for c in b[1]):
                 # contract: a literal value without * ? [ \ matches exactly itself
-                return ("bool", f.pred("xattr-value-matches", repr(a[1]), repr(("str", tuple(b[1])))))
-            return ("bool", f.pred("equal?", repr(a), repr(b)))
+                return ("bool", f.pred("xattr-value-matches", a[1], ("str", tuple(b[1]))))
+            return ("bool", f.pred("equal?", a, b))
         if name == "print-relative-path" and not args:
             self.emit(g, "direct", ("stdout",), [("attr", "relative-path")], extra=10, held=held)
             return ("bool", True)
